@@ -2169,6 +2169,10 @@ class SQLCompiler(Compiled):
             names = self.bind_names.values()
 
         ebn = self.escaped_bind_names
+        # names the expanded values of an IN parameter must not take
+        taken_names = {
+            (ebn.get(n, n) if ebn else n) for n in self.bind_names.values()
+        }
         for name in names:
             escaped_name = ebn.get(name, name) if ebn else name
             parameter = self.binds[name]
@@ -2202,7 +2206,7 @@ class SQLCompiler(Compiled):
                     values = parameters.pop(name)
 
                     leep_res = self._literal_execute_expanding_parameter(
-                        escaped_name, parameter, values
+                        escaped_name, parameter, values, taken_names
                     )
                     to_update, replacement_expr = leep_res
 
@@ -3484,7 +3488,25 @@ class SQLCompiler(Compiled):
 
         return (), replacement_expression
 
-    def _literal_execute_expanding_parameter(self, name, parameter, values):
+    def _literal_execute_expanding_parameter(
+        self, name, parameter, values, taken_names=None
+    ):
+        if taken_names is not None:
+            # "x" expands to x_1, x_2 ...: another parameter of the statement
+            # may be called x_1 (columns "addr" and "addr_1" produce exactly
+            # that with anonymous names); lengthen the prefix until free
+            prefix = name
+            while any(
+                other.startswith(f"{prefix}_")
+                and other[len(prefix) + 1 :].replace("_", "").isdigit()
+                for other in taken_names
+                if other != name
+            ):
+                prefix += "_"
+            if prefix != name:
+                taken_names.add(prefix)
+            name = prefix
+
         if parameter.literal_execute:
             return self._literal_execute_expanding_parameter_literal_binds(
                 parameter, values
